@@ -265,6 +265,36 @@ def check(ctx):
             r = peel_box(("ref", p.ret, False))
             okg = okg and r[0] == "field" and r[2] == "state" and not [c for c in p.calls() if not callee_is(c, "Drop::drop")]
         ctx.check(okg, "R02.4", "into_state/%s-returns-the-carried-state" % fid_self.split("::")[-1].split("<")[0], "*self.state", g.at())
+    # the error value's own accessors: what a caller reads back is the carried state / error / severity
+    E_ = "push::error::Error::<S, E>::"
+    for name, variant_true in (("is_recoverable", 0), ("is_fatal", 1)):
+        g = ctx.fn(E_ + name)
+        ps = return_paths(ctx.paths(g))
+        okv = len(ps) == 2
+        for q in ps:
+            d = [c for c in q.conds if c[0][0] == "discr" and peel(c[0][1], ()) == ("param", 1)]
+            is_v = bool(d) and d[0][1] == variant_true
+            okv = okv and bool(d) and q.ret[0] == "const" and q.ret[3] == (1 if is_v else 0) and not q.calls()
+        ctx.check(okv, "R02.4", "Error::%s-iff-that-variant" % name, "; ".join("[%s] -> %s" % (cond_str(q), short(q.ret)) for q in ps), g.at(),
+                  bad_detail="Error::%s must answer true exactly for its own variant; extracted %s" % (name, "; ".join("[%s] -> %s" % (cond_str(q), short(q.ret)) for q in ps)))
+    for name in ("state", "error"):
+        g = ctx.fn(E_ + name)
+        ps = return_paths(ctx.paths(g))
+        okv = len(ps) == 2
+        seenv = set()
+        for q in ps:
+            d = [c for c in q.conds if c[0][0] == "discr" and peel(c[0][1], ()) == ("param", 1)]
+            v = {0: "Recoverable", 1: "Fatal"}.get(d[0][1]) if d else None
+            seenv.add(v)
+            r = peel_box(("ref", q.ret, False)) if name == "state" else peel(q.ret, ())
+            okv = okv and v is not None and r[0] == "field" and r[2] == name and r[1][0] == "field" and r[1][3] == v and r[1][2] == 0 and peel(r[1][1], ()) == ("param", 1) and not q.calls()
+        ctx.check(okv and seenv == {"Recoverable", "Fatal"}, "R02.4", "Error::%s()-returns-the-carried-%s" % (name, name), "; ".join("[%s] -> %s" % (cond_str(q), short(q.ret, 4)) for q in ps), g.at(),
+                  bad_detail="Error::%s() must return the `%s` field of whichever variant it is; extracted %s" % (name, name, "; ".join("[%s] -> %s" % (cond_str(q), short(q.ret, 6)) for q in ps)))
+    g = ctx.trait_fn("push::error::try_recover::TryRecover::try_recover", "std::result::Result<S, push::error::stateful::StatefulError<S, E, push::error::stateful::Recoverable>>")
+    ps = return_paths(ctx.paths(g))
+    into = lambda e: e[0] == "fnitem" and path_ends(e[1], "IntoState::into_state")
+    ctx.check(len(ps) == 1 and len(ctx.paths(g)) == 1 and match(ps[0].ret, Agg("Result::Ok", Call("Result::unwrap_or_else", Param(1), into, nargs=2))), "R02.4",
+              "try_recover(RecoverableError)/Ok(state-or-carried-state)", short(ps[0].ret, 4) if ps else "-", g.at())
     rt = ctx.fn("<push::push_vm::push_state::PushState as push::push_vm::State>::run_to_completion")
     body = [p for p in ctx.paths(rt) if p.end != "unreachable"]
     okr = False
